@@ -1,4 +1,213 @@
-//! C08: not built yet.
-use crate::util::Ctx;
+//! C08 — AST serialization round-trips.
+//! Streams: `c08.ast` (source ↦ AST dump: real parser + from_cst.rs vs the Lean reference parser),
+//! `c08.print` (source, config ↦ serialized text, byte for byte), `c08.toks` (the model's printed text
+//! re-lexes to the model's token stream).  Oracle on the implementation: for every error-free document
+//! and every configuration, the printed text re-parses without errors to an equal AST, and printing
+//! that AST again gives identical text.
+use crate::gen::G;
+use crate::util::*;
+use apollo_compiler::ast;
+use std::fmt::Write;
 
-pub fn run(_ctx: &mut Ctx) {}
+fn q(s: &str, out: &mut String) {
+    for c in s.chars() {
+        if c.is_ascii_alphanumeric() || c == '_' || c == '-' || c == '.' || c == '+' { out.push(c); } else { write!(out, "\\{:x};", c as u32).unwrap(); }
+    }
+}
+fn qs(s: &str) -> String { let mut o = String::new(); q(s, &mut o); o }
+fn d_opt(o: Option<&str>) -> String { match o { None => "-".into(), Some(s) => format!("?{}", qs(s)) } }
+fn d_list<T>(l: &[T], f: impl Fn(&T) -> String) -> String { format!("[{}]", l.iter().map(f).collect::<Vec<_>>().join(" ")) }
+
+fn d_value(v: &ast::Value) -> String {
+    match v {
+        ast::Value::Null => "N".into(),
+        ast::Value::Boolean(true) => "T".into(),
+        ast::Value::Boolean(false) => "F".into(),
+        ast::Value::Enum(n) => format!("E{}", qs(n)),
+        ast::Value::String(s) => format!("S{}", qs(s)),
+        ast::Value::Variable(n) => format!("V{}", qs(n)),
+        ast::Value::Float(f) => format!("D{}", qs(f.as_str())),
+        ast::Value::Int(i) => format!("I{}", qs(i.as_str())),
+        ast::Value::List(vs) => format!("(L{})", vs.iter().map(|v| format!(" {}", d_value(v))).collect::<String>()),
+        ast::Value::Object(fs) => format!("(O{})", fs.iter().map(|(n, v)| format!(" {}:{}", qs(n), d_value(v))).collect::<String>()),
+    }
+}
+fn d_ty(t: &ast::Type) -> String {
+    match t {
+        ast::Type::Named(n) => qs(n),
+        ast::Type::NonNullNamed(n) => format!("{}!", qs(n)),
+        ast::Type::List(t) => format!("[{}]", d_ty(t)),
+        ast::Type::NonNullList(t) => format!("[{}]!", d_ty(t)),
+    }
+}
+fn d_arg(a: &apollo_compiler::Node<ast::Argument>) -> String { format!("{}:{}", qs(&a.name), d_value(&a.value)) }
+fn d_dirs(ds: &ast::DirectiveList) -> String { d_list(&ds.0, |d| format!("@{}{}", qs(&d.name), d_list(&d.arguments, d_arg))) }
+fn d_sels(ss: &[ast::Selection]) -> String { ss.iter().map(|s| format!(" {}", d_sel(s))).collect() }
+fn d_sel(s: &ast::Selection) -> String {
+    match s {
+        ast::Selection::Field(f) => format!("(f {} {} {} {} {{{}}})", d_opt(f.alias.as_ref().map(|a| a.as_str())), qs(&f.name), d_list(&f.arguments, d_arg), d_dirs(&f.directives), d_sels(&f.selection_set)),
+        ast::Selection::FragmentSpread(f) => format!("(s {} {})", qs(&f.fragment_name), d_dirs(&f.directives)),
+        ast::Selection::InlineFragment(f) => format!("(i {} {} {{{}}})", d_opt(f.type_condition.as_ref().map(|a| a.as_str())), d_dirs(&f.directives), d_sels(&f.selection_set)),
+    }
+}
+fn d_optv(v: &Option<apollo_compiler::Node<ast::Value>>) -> String { match v { None => "-".into(), Some(v) => format!("?{}", d_value(v)) } }
+fn d_desc(d: &Option<apollo_compiler::Node<str>>) -> String { d_opt(d.as_ref().map(|d| &**d)) }
+fn d_ivd(v: &apollo_compiler::Node<ast::InputValueDefinition>) -> String {
+    format!("(iv {} {} {} {} {})", d_desc(&v.description), qs(&v.name), d_ty(&v.ty), d_optv(&v.default_value), d_dirs(&v.directives))
+}
+fn d_fd(v: &apollo_compiler::Node<ast::FieldDefinition>) -> String {
+    format!("(fd {} {} {} {} {})", d_desc(&v.description), qs(&v.name), d_list(&v.arguments, d_ivd), d_ty(&v.ty), d_dirs(&v.directives))
+}
+fn d_evd(v: &apollo_compiler::Node<ast::EnumValueDefinition>) -> String { format!("(ev {} {} {})", d_desc(&v.description), qs(&v.value), d_dirs(&v.directives)) }
+fn d_root(r: &apollo_compiler::Node<(ast::OperationType, ast::NamedType)>) -> String { format!("{}:{}", r.0.name(), qs(&r.1)) }
+fn d_names(l: &[apollo_compiler::Name]) -> String { d_list(l, |n| qs(n)) }
+
+pub fn dump(doc: &ast::Document) -> String {
+    use ast::Definition as D;
+    doc.definitions.iter().map(|def| match def {
+        D::OperationDefinition(o) => format!("(op {} {} {} {} {{{}}})", o.operation_type.name(), d_opt(o.name.as_ref().map(|n| n.as_str())),
+            d_list(&o.variables, |v| format!("(v {} {} {} {})", qs(&v.name), d_ty(&v.ty), d_optv(&v.default_value), d_dirs(&v.directives))), d_dirs(&o.directives), d_sels(&o.selection_set)),
+        D::FragmentDefinition(f) => format!("(frag {} {} {} {{{}}})", qs(&f.name), qs(&f.type_condition), d_dirs(&f.directives), d_sels(&f.selection_set)),
+        D::DirectiveDefinition(d) => format!("(dirdef {} {} {} {} {})", d_desc(&d.description), qs(&d.name), d_list(&d.arguments, d_ivd), if d.repeatable { "R" } else { "-" }, d_list(&d.locations, |l| qs(l.name()))),
+        D::SchemaDefinition(s) => format!("(schema {} {} {})", d_desc(&s.description), d_dirs(&s.directives), d_list(&s.root_operations, d_root)),
+        D::ScalarTypeDefinition(s) => format!("(scalar {} {} {})", d_desc(&s.description), qs(&s.name), d_dirs(&s.directives)),
+        D::ObjectTypeDefinition(t) => format!("(type {} {} {} {} {})", d_desc(&t.description), qs(&t.name), d_names(&t.implements_interfaces), d_dirs(&t.directives), d_list(&t.fields, d_fd)),
+        D::InterfaceTypeDefinition(t) => format!("(interface {} {} {} {} {})", d_desc(&t.description), qs(&t.name), d_names(&t.implements_interfaces), d_dirs(&t.directives), d_list(&t.fields, d_fd)),
+        D::UnionTypeDefinition(t) => format!("(union {} {} {} {})", d_desc(&t.description), qs(&t.name), d_dirs(&t.directives), d_names(&t.members)),
+        D::EnumTypeDefinition(t) => format!("(enum {} {} {} {})", d_desc(&t.description), qs(&t.name), d_dirs(&t.directives), d_list(&t.values, d_evd)),
+        D::InputObjectTypeDefinition(t) => format!("(input {} {} {} {})", d_desc(&t.description), qs(&t.name), d_dirs(&t.directives), d_list(&t.fields, d_ivd)),
+        D::SchemaExtension(s) => format!("(xschema {} {})", d_dirs(&s.directives), d_list(&s.root_operations, d_root)),
+        D::ScalarTypeExtension(s) => format!("(xscalar {} {})", qs(&s.name), d_dirs(&s.directives)),
+        D::ObjectTypeExtension(t) => format!("(xtype {} {} {} {})", qs(&t.name), d_names(&t.implements_interfaces), d_dirs(&t.directives), d_list(&t.fields, d_fd)),
+        D::InterfaceTypeExtension(t) => format!("(xinterface {} {} {} {})", qs(&t.name), d_names(&t.implements_interfaces), d_dirs(&t.directives), d_list(&t.fields, d_fd)),
+        D::UnionTypeExtension(t) => format!("(xunion {} {} {})", qs(&t.name), d_dirs(&t.directives), d_names(&t.members)),
+        D::EnumTypeExtension(t) => format!("(xenum {} {} {})", qs(&t.name), d_dirs(&t.directives), d_list(&t.values, d_evd)),
+        D::InputObjectTypeExtension(t) => format!("(xinput {} {} {})", qs(&t.name), d_dirs(&t.directives), d_list(&t.fields, d_ivd)),
+    }).collect::<Vec<_>>().join(" ")
+}
+
+pub fn print_with(doc: &ast::Document, prefix: Option<&str>, level: usize) -> String {
+    let ser = doc.serialize().initial_indent_level(level);
+    match prefix { Some(p) => ser.indent_prefix(p).to_string(), None => ser.no_indent().to_string() }
+}
+
+pub const CFGS: [(Option<&str>, usize); 10] = [(Some("  "), 0), (None, 0), (Some(""), 0), (Some(""), 2), (Some(" "), 1), (Some("\t"), 1),
+    (Some("    "), 3), (Some("  "), 2), (Some("\t "), 1), (None, 2)];
+
+/// a random string *value*, written as a quoted literal (always lexes)
+fn random_string_literal(r: &mut Rng) -> String {
+    let pieces = ["\"", "\"\"\"", "\\", "\n", "\n\n", "  ", "\t", "a", "word ", "é", "😀", "\u{1}", "\u{7f}", "\r", " \n x",
+        "long long long long long long long long long long long long long long long text", "end\""];
+    let n = r.below(6);
+    let mut lit = String::from("\"");
+    for _ in 0..n {
+        for c in r.pick(&pieces).chars() {
+            match c { '"' => lit.push_str("\\\""), '\\' => lit.push_str("\\\\"), '\n' => lit.push_str("\\n"), '\r' => lit.push_str("\\r"), '\t' => lit.push_str("\\t"),
+                c if (c as u32) < 0x20 || c as u32 == 0x7f => write!(lit, "\\u{:04x}", c as u32).unwrap(), c => lit.push(c) }
+        }
+    }
+    lit.push('"');
+    lit
+}
+
+fn one_doc(ctx: &mut Ctx, src: &str, all_cfgs: bool) {
+    let doc = match catch(|| ast::Document::parse(src.to_string(), "d.graphql")) {
+        Ok(Ok(d)) => d,
+        Ok(Err(_)) => { ctx.stat("skipped_syntax_error"); return }
+        Err(m) => { ctx.fail("parse-panic", src, &m); return }
+    };
+    if doc.definitions.is_empty() { ctx.stat("skipped_empty"); return }
+    ctx.stat("documents");
+    ctx.stat_n("definitions", doc.definitions.len() as u64);
+    for d in &doc.definitions { ctx.stat(&format!("def:{}", def_kind(d))); }
+    ctx.case("c08.ast", &[enc(src)], &dump(&doc));
+    let n = CFGS.len();
+    let picks: Vec<usize> = if all_cfgs { (0..n).collect() } else { vec![0, 1, 2 + ctx.rng.below(n - 2)] };
+    for i in picks {
+        let (p, l) = CFGS[i];
+        let text = match catch(|| print_with(&doc, p, l)) { Ok(t) => t, Err(m) => { ctx.fail("serialize-panic", src, &m); continue } };
+        let pf = p.map(enc).unwrap_or_else(|| "-".into());
+        ctx.case("c08.print", &[pf.clone(), l.to_string(), enc(src)], &enc(&text));
+        ctx.case("c08.toks", &[pf, l.to_string(), enc(src)], "true");
+        // oracle on the implementation
+        let input = format!("prefix={p:?} level={l} src={src:?}");
+        match catch(|| ast::Document::parse(text.clone(), "r.graphql")) {
+            Ok(Ok(back)) => {
+                if back != doc || dump(&back) != dump(&doc) {
+                    ctx.fail("reparse-differs", &input, &format!("printed {text:?}; AST before {} ; after {}", dump(&doc), dump(&back)));
+                } else {
+                    let again = print_with(&back, p, l);
+                    if again != text { ctx.fail("reprint-differs", &input, &format!("first {text:?} second {again:?}")); }
+                }
+            }
+            Ok(Err(e)) => ctx.fail("reparse-error", &input, &format!("printed text has syntax errors: {text:?}: {}", e.errors.to_string().lines().next().unwrap_or(""))),
+            Err(m) => ctx.fail("reparse-panic", &input, &m),
+        }
+        ctx.nontrivial(&text);
+    }
+}
+
+fn def_kind(d: &ast::Definition) -> &'static str {
+    use ast::Definition as D;
+    match d { D::OperationDefinition(_) => "operation", D::FragmentDefinition(_) => "fragment", D::DirectiveDefinition(_) => "directive", D::SchemaDefinition(_) => "schema",
+        D::ScalarTypeDefinition(_) => "scalar", D::ObjectTypeDefinition(_) => "object", D::InterfaceTypeDefinition(_) => "interface", D::UnionTypeDefinition(_) => "union",
+        D::EnumTypeDefinition(_) => "enum", D::InputObjectTypeDefinition(_) => "input", D::SchemaExtension(_) => "xschema", D::ScalarTypeExtension(_) => "xscalar",
+        D::ObjectTypeExtension(_) => "xobject", D::InterfaceTypeExtension(_) => "xinterface", D::UnionTypeExtension(_) => "xunion", D::EnumTypeExtension(_) => "xenum", D::InputObjectTypeExtension(_) => "xinput" }
+}
+
+const FIXED: &[&str] = &[
+    "{ a }", "query { a }", "type A @d { a }", "scalar S { a }", "type A { f: Int } { a }", "{ a } { b }", "extend schema @d { a }", "type A { a }",
+    "query Q($a: Int = 1 @d, $b: [Int!]! = [1, 2]) @d { a: b(x: {y: [1.5e3, \"s\", null, true, E, $a]}) @d(a: 1) @e { ... on T @d { c } ... @d { d } ...F @d } }",
+    "fragment F on T @d { a }", "subscription { a }", "mutation M { a }", "query { a } { b }",
+    "\"d\" schema @d { query: Q mutation: M }", "extend schema @d", "extend schema { subscription: S }",
+    "\"\"\"\nblock\n\"\"\" scalar S @d", "extend scalar S @d",
+    "type T implements A & B @d { \"d\" f(\"d\" a: Int = 1 @d, b: [S]): T! @d g: Int }", "type T", "extend type T implements A", "extend type T { f: Int }",
+    "interface I implements J { f: Int }", "extend interface I @d", "union U @d = A | B", "union U", "extend union U = | A", "union U = | A | B",
+    "enum E @d { \"d\" A @d B }", "enum E", "extend enum E { C }", "input I @d { \"d\" a: Int = 1 @d b: S }", "input I", "extend input I { c: Int }",
+    "directive @d(a: Int = 1, \"d\" b: S @x) repeatable on QUERY | FIELD", "directive @d on | QUERY", "\"d\" directive @d on FIELD_DEFINITION",
+    "{ a(s: \"a\\nb\") b(s: \"  x\\n  y\") c(s: \"\\\"\") d(s: \"x\\\\\") e(s: \"\"\"q\\\"\"\"q\"\"\") }",
+    "\"first\\nsecond\" type T { \"ends with quote\\\"\" f: Int \"   indented\" g: Int \"\" h: Int }",
+    "type T { f(a: String = \"x\" \"d\" b: Int): Int }", "input I { a: String = \"x\" \"d\" b: Int }",
+    "{ a(x: [[1, [2]], {a: {b: []}}, {}]) }", "query ($v: [[Int!]]! = [[1]]) { a }", "{ on: on(on: on) @on(on: on) { on } }",
+    "query query { query } fragment fragment on on { on }", "type type { type: type } enum enum { enum }", "{ a(x: -0, y: -1.0E+5, z: 0.5e-3) }",
+];
+
+/// one snippet per definition kind and per optional-part shape (with and without the trailing `{…}` / list),
+/// combined pairwise: what a definition may be followed by is where the shorthand rule and the
+/// optional-braces rules interact
+const SNIPPETS: &[&str] = &[
+    "{ a }", "query { a }", "query Q { a }", "query @d { a }", "query ($v: Int) { a }", "mutation { a }", "subscription S { a }",
+    "fragment F on T { a }", "schema { query: Q }", "schema @d { query: Q }", "extend schema @d", "extend schema { query: Q }", "extend schema @d { mutation: M }",
+    "scalar S", "scalar S @d", "scalar S @d(a: 1)", "extend scalar S @d",
+    "type T", "type T @d", "type T implements I", "type T implements I & J @d", "type T { f: Int }", "type T { f(a: Int = 1): [Int!]! @d }", "extend type T @d", "extend type T implements I", "extend type T { f: Int }",
+    "interface I", "interface I implements J", "interface I { f: Int }", "extend interface I @d", "extend interface I { f: Int }",
+    "union U", "union U @d", "union U = A", "union U = A | B", "extend union U @d", "extend union U = A",
+    "enum E", "enum E @d", "enum E { A }", "extend enum E @d", "extend enum E { A }",
+    "input I", "input I @d", "input I { a: Int }", "input I { a: Int = 1 }", "extend input I @d", "extend input I { a: Int }",
+    "directive @d on FIELD", "directive @d(a: Int) repeatable on FIELD | QUERY", "\"d\" scalar S", "\"d\" type T", "\"d\" directive @d on FIELD",
+];
+
+pub fn run(ctx: &mut Ctx) {
+    for s in FIXED { one_doc(ctx, s, true); }
+    for a in SNIPPETS { for b in SNIPPETS { one_doc(ctx, &format!("{a} {b}"), false); } }
+    if ctx.thorough { for a in SNIPPETS { for b in &SNIPPETS[..8] { for c in SNIPPETS.iter().step_by(3) { one_doc(ctx, &format!("{a} {b} {c}"), false); } } } }
+    for s in crate::pp::repo_documents() { one_doc(ctx, &s, false); }
+    let dir = "/repo/crates/apollo-compiler/test_data";
+    for sub in ["ok", "diagnostics", "serializer"] {
+        let Ok(rd) = std::fs::read_dir(format!("{dir}/{sub}")) else { continue };
+        let mut files: Vec<_> = rd.filter_map(|e| e.ok()).map(|e| e.path()).filter(|p| p.extension().map(|x| x == "graphql").unwrap_or(false)).collect();
+        files.sort();
+        for p in files { if let Ok(s) = std::fs::read_to_string(&p) { if s.len() < 6000 { ctx.stat("repo_files"); one_doc(ctx, &s, false); } } }
+    }
+    let n = if ctx.thorough { 60_000 } else { 5_000 };
+    let mut cov = std::collections::BTreeMap::new();
+    for i in 0..n {
+        let mut r = Rng(ctx.rng.next());
+        let mut src = { let mut g = G { r: &mut r, depth: 0, cov: &mut cov }; g.document() };
+        // richer string values than the grammar generator's fixed picks
+        while let Some(at) = src.find("\"s\"") { let lit = random_string_literal(&mut r); src.replace_range(at..at + 3, &lit); }
+        while let Some(at) = src.find("\"desc\"") { let lit = random_string_literal(&mut r); src.replace_range(at..at + 6, &lit); }
+        one_doc(ctx, &src, i % 50 == 0);
+    }
+    for (k, v) in cov { ctx.stat_n(&format!("prod:{k}"), v); }
+}
